@@ -176,6 +176,9 @@ def lane_facts(ctx, source, family, groups, cfg_filter=None, extra_defs=(), args
             tag = '%s/%s' % (c.name, g)
             m.add_file(tag, results[tag])
         ctx.ev['facts_offered_by_drivers'] += m.total_offered
+        if getattr(m, 'total_swept', 0):
+            ctx.ev['inputs_swept_natively_not_judged'] = ctx.ev.get('inputs_swept_natively_not_judged', 0) + m.total_swept
+            ctx.ev['disagreements_forwarded_to_tlc'] = ctx.ev.get('disagreements_forwarded_to_tlc', 0) + m.total_disagreements
         ctx.log('group %s: %d distinct facts from %d outputs (%d distinct outputs); TLC ...' % (
             g, len(m.lines), len(m.files), len(m.classes)))
         judged, rejected = facts.validate(m, ctx.scratch, '%s_g%s' % (family, g), module=module, env_extra=env_extra)
